@@ -321,3 +321,63 @@ Qed.
 (* the weakened guard `offset < 0 || offset >= len(ber)` would read one past the end *)
 Lemma is_indef_term_needs_two : getb [48; 128; 2; 1; 1; 0]%N 6 = None /\ is_indef_term [48; 128; 2; 1; 1; 0]%N 5 = IErr.
 Proof. vm_compute. split; reflexivity. Qed.
+
+(* ------------------------------------------------------------------ detectMarker *)
+
+Lemma index_from_range : forall p s i, index_from p s i = (-1)%Z \/ (i <= index_from p s i)%Z.
+Proof.
+  intros p s. induction s as [|c t IH]; intros i; simpl.
+  - destruct (prefixb p []); [right; lia | left; reflexivity].
+  - destruct (prefixb p (c :: t)); [right; lia|]. destruct (IH (i + 1)%Z) as [H|H]; [left; exact H | right; lia].
+Qed.
+
+Lemma str_index_range : forall p s, str_index p s = (-1)%Z \/ (0 <= str_index p s)%Z.
+Proof. intros p s. apply index_from_range. Qed.
+
+Lemma skipn_length_Z : forall (l : list N) off, (0 <= off <= Z.of_nat (length l))%Z ->
+  Z.of_nat (length (skipn (Z.to_nat off) l)) = (Z.of_nat (length l) - off)%Z.
+Proof. intros l off H. rewrite skipn_length. lia. Qed.
+
+(* with the look-ahead guarded, the loop reads only inside the line and ends within |line|+1 rounds *)
+Lemma dm_loop_safe : forall fuel is_endobj marker line off ind,
+  (1 <= Z.of_nat (length marker))%Z -> (Z.of_nat (length marker) <= off < Z.of_nat (length line))%Z ->
+  (length line < fuel)%nat ->
+  match dm_loop fuel true is_endobj marker line off ind with DRes _ => True | _ => False end.
+Proof.
+  induction fuel as [|f IH]; intros is_endobj marker line off ind Hm Hoff Hf; [lia|].
+  simpl. destruct (getb_in line off ltac:(lia)) as [c Ec]. rewrite Ec.
+  destruct (is_marker_term c); [exact I|].
+  set (line1 := skipn (Z.to_nat off) line).
+  assert (Hl1 : Z.of_nat (length line1) = (Z.of_nat (length line) - off)%Z) by (apply skipn_length_Z; lia).
+  assert (Hcont :
+    match (let i := str_index marker line1 in
+           if (i <? 0)%Z then DRes (-1)
+           else if (Z.of_nat (length line1) <=? i + Z.of_nat (length marker))%Z then DRes (-1)
+           else dm_loop f true is_endobj marker line1 (i + Z.of_nat (length marker))%Z (ind + (i + Z.of_nat (length marker)))%Z)
+    with DRes _ => True | _ => False end).
+  { cbv zeta. destruct (Z.ltb_spec (str_index marker line1) 0) as [Hi|Hi]; [exact I|].
+    destruct (Z.leb_spec (Z.of_nat (length line1)) (str_index marker line1 + Z.of_nat (length marker))) as [Hx|Hx]; [exact I|].
+    apply IH; lia. }
+  destruct is_endobj; [|exact Hcont].
+  destruct (Z.leb_spec 0 (str_index m_xref line1)) as [Hj|Hj]; simpl; [|exact Hcont].
+  destruct (Z.ltb_spec (str_index m_xref line1 + 4) (Z.of_nat (length line1))) as [Hk|Hk]; [|exact Hcont].
+  destruct (getb_in line1 (str_index m_xref line1 + 4) ltac:(lia)) as [r Er]. rewrite Er.
+  destruct (is_marker_term r); [exact I | exact Hcont].
+Qed.
+
+Lemma detect_marker_safe : forall is_endobj line,
+  match detect_marker true is_endobj line with DRes _ => True | _ => False end.
+Proof.
+  intros is_endobj line. unfold detect_marker.
+  set (marker := if is_endobj then m_endobj else m_stream).
+  assert (Hm : Z.of_nat (length marker) = 6%Z) by (destruct is_endobj; reflexivity).
+  destruct (Z.ltb_spec (str_index marker line) 0) as [Hi|Hi]; [exact I|].
+  destruct (Z.leb_spec (Z.of_nat (length line)) (str_index marker line + Z.of_nat (length marker))) as [Hx|Hx]; [exact I|].
+  apply dm_loop_safe; lia.
+Qed.
+
+(* "endobjstartxref" ending exactly at the end of the buffer: the unguarded look-ahead reads line[j+4] = line[len] *)
+Lemma detect_marker_unguarded_oob :
+  detect_marker false true [101;110;100;111;98;106;115;116;97;114;116;120;114;101;102]%N = DOOB
+  /\ detect_marker true true [101;110;100;111;98;106;115;116;97;114;116;120;114;101;102]%N = DRes (-1).
+Proof. vm_compute. split; reflexivity. Qed.
